@@ -35,8 +35,8 @@ theorem write_frame (k : Nat) (m : Store) (a d b : Nat) :
   · intro h; exact if_pos h
 
 /-- the store stays a byte store under every processed request -/
-theorem write_keeps_bytes (nb : Nat) (l : List Req) (m : Store) (h : Bytes m) : Bytes (seqSpec nb l m).2 :=
-  seqSpec_bytes nb l m h
+theorem write_keeps_bytes (l : List Req) (m : Store) (h : Bytes m) : Bytes (seqSpec l m).2 :=
+  seqSpec_bytes l m h
 
 /-! ## reads return the latest earlier-processed write, byte by byte -/
 
@@ -44,25 +44,25 @@ theorem write_keeps_bytes (nb : Nat) (l : List Req) (m : Store) (h : Bytes m) : 
 a read or an AMO `r` is answered `(type, opaque, 0, len, d)` where, for every byte `j` of the access,
 byte `j` of `d` is the byte stored at `r.addr + j` by the latest request of `pre` that stored to that
 address — or the byte of the initial image if no request of `pre` did. -/
-theorem read_latest (nb : Nat) (pre post : List Req) (r : Req) (m0 : Store) (hm : Bytes m0) :
+theorem read_latest (pre post : List Req) (r : Req) (m0 : Store) (hm : Bytes m0) :
     (r.kind = .write →
-      (seqSpec nb (pre ++ r :: post) m0).1[pre.length]? = some ⟨1, r.opq, 0, 0, 0⟩) ∧
+      (seqSpec (pre ++ r :: post) m0).1[pre.length]? = some ⟨1, r.opq, 0, 0, 0⟩) ∧
     (r.kind ≠ .write →
-      ∃ d, (seqSpec nb (pre ++ r :: post) m0).1[pre.length]? = some ⟨r.kind.code, r.opq, 0, r.len, d⟩ ∧
-        d < 256 ^ nbytes nb r.len ∧
-        ∀ j, j < nbytes nb r.len →
-          (d / 256 ^ j) % 256 = (latest (effects nb pre m0) (r.addr + j)).getD (m0 (r.addr + j))) := by
-  have hidx : (seqSpec nb (pre ++ r :: post) m0).1[pre.length]? = some (service nb r (seqSpec nb pre m0).2).1 := by
+      ∃ d, (seqSpec (pre ++ r :: post) m0).1[pre.length]? = some ⟨r.kind.code, r.opq, 0, r.len, d⟩ ∧
+        d < 256 ^ nbytes r.nb r.len ∧
+        ∀ j, j < nbytes r.nb r.len →
+          (d / 256 ^ j) % 256 = (latest (effects pre m0) (r.addr + j)).getD (m0 (r.addr + j))) := by
+  have hidx : (seqSpec (pre ++ r :: post) m0).1[pre.length]? = some (service r (seqSpec pre m0).2).1 := by
     rw [seqSpec_append]
     simp only []
     rw [List.getElem?_append_right (by rw [seqSpec_length]; exact Nat.le_refl _), seqSpec_length]
     simp [seqSpec]
-  have hb := seqSpec_bytes nb pre m0 hm
+  have hb := seqSpec_bytes pre m0 hm
   constructor
   · intro hw
     rw [hidx]; simp [service, hw, Kind.code]
   · intro hw
-    refine ⟨readLE (seqSpec nb pre m0).2 r.addr (nbytes nb r.len), ?_, readLE_lt _ _ _ hb, ?_⟩
+    refine ⟨readLE (seqSpec pre m0).2 r.addr (nbytes r.nb r.len), ?_, readLE_lt _ _ _ hb, ?_⟩
     · rw [hidx]
       unfold service
       cases hk : r.kind with
@@ -74,16 +74,16 @@ theorem read_latest (nb : Nat) (pre post : List Req) (r : Req) (m0 : Store) (hm 
 
 /-- the final image: every byte is the one stored by the latest processed request covering it,
 else the initial byte -/
-theorem image_latest (nb : Nat) (l : List Req) (m0 : Store) (b : Nat) :
-    (seqSpec nb l m0).2 b = (latest (effects nb l m0) b).getD (m0 b) :=
-  store_latest nb l m0 b
+theorem image_latest (l : List Req) (m0 : Store) (b : Nat) :
+    (seqSpec l m0).2 b = (latest (effects l m0) b).getD (m0 b) :=
+  store_latest l m0 b
 
 /-- what a write stores: byte `j` of its data at `addr + j`, for the `len` bytes of the access
-(`len = 0` means the full data width `nb`) -/
-theorem write_stores (nb : Nat) (r : Req) (m : Store) (h : r.kind = .write) :
-    ∃ e, effect nb r m = some e ∧ e.addr = r.addr ∧ e.k = nbytes nb r.len ∧
+(`len = 0` means the full data width `r.nb` of the request's message class) -/
+theorem write_stores (r : Req) (m : Store) (h : r.kind = .write) :
+    ∃ e, effect r m = some e ∧ e.addr = r.addr ∧ e.k = nbytes r.nb r.len ∧
       ∀ j, j < e.k → e.covers (r.addr + j) = true ∧ e.byte (r.addr + j) = (r.data / 256 ^ j) % 256 := by
-  refine ⟨⟨r.addr, nbytes nb r.len, r.data % 2 ^ (8 * nbytes nb r.len)⟩, by simp [effect, h], rfl, rfl, ?_⟩
+  refine ⟨⟨r.addr, nbytes r.nb r.len, r.data % 2 ^ (8 * nbytes r.nb r.len)⟩, by simp [effect, h], rfl, rfl, ?_⟩
   intro j hj
   simp only [WEvent.covers, WEvent.byte] at hj ⊢
   refine ⟨by simp; omega, ?_⟩
@@ -94,13 +94,13 @@ theorem write_stores (nb : Nat) (r : Req) (m : Store) (h : r.kind = .write) :
 
 /-- an AMO returns the old value and leaves `op(old, data) mod 2^(8k)` in memory, touching nothing
 outside its `k` bytes; the event recorded for it in `effects` is exactly that store -/
-theorem amo_spec (nb : Nat) (r : Req) (op : AmoOp) (m : Store) (h : r.kind = .amo op) :
-    let k := nbytes nb r.len
+theorem amo_spec (r : Req) (op : AmoOp) (m : Store) (h : r.kind = .amo op) :
+    let k := nbytes r.nb r.len
     let old := readLE m r.addr k
-    (service nb r m).1 = ⟨op.code, r.opq, 0, r.len, old⟩ ∧
-    readLE (service nb r m).2 r.addr k = amoFun (8 * k) op old r.data % 2 ^ (8 * k) ∧
-    (∀ b, (b < r.addr ∨ r.addr + k ≤ b) → (service nb r m).2 b = m b) ∧
-    effect nb r m = some ⟨r.addr, k, amoFun (8 * k) op old r.data⟩ := by
+    (service r m).1 = ⟨op.code, r.opq, 0, r.len, old⟩ ∧
+    readLE (service r m).2 r.addr k = amoFun (8 * k) op old r.data % 2 ^ (8 * k) ∧
+    (∀ b, (b < r.addr ∨ r.addr + k ≤ b) → (service r m).2 b = m b) ∧
+    effect r m = some ⟨r.addr, k, amoFun (8 * k) op old r.data⟩ := by
   refine ⟨?_, ?_, ?_, ?_⟩
   · simp [service, h]
   · simp only [service, h]; rw [PV.Mem.read_write, pow256]
@@ -173,7 +173,8 @@ theorem inelastic_pipe_fifo {α : Type} (delay : Nat) (hd : 1 ≤ delay) (es : L
 
 /-! ## timing independence -/
 
-/-- `MagicMemoryCL`. For every port count `n`, data width `nb`, `latency`, request streams `reqs`,
+/-- `MagicMemoryCL`. For every port count `n`, `latency`, data widths (each request carries the byte width `nb` of
+the message class of its port, so ports may differ in width), request streams `reqs`,
 initial image `m0`, environment `env` (per cycle and port: does the source offer, does the stall
 gate close, is the sink ready — arbitrary) and number of cycles `T`, with `log` the requests in the
 order the memory processed them:
@@ -181,27 +182,27 @@ the store is `seqSpec log`'s store; each port's responses (received, then those 
 response pipe) are `seqSpec log`'s responses for that port, in order; each port's processed
 requests followed by those in its request pipe and those not yet sent are its request stream; only
 ports `< n` are served. -/
-theorem cl_timing_independent (n nb latency : Nat) (reqs : Nat → List Req) (m0 : Store)
+theorem cl_timing_independent (n latency : Nat) (reqs : Nat → List Req) (m0 : Store)
     (env : Nat → Nat → CL.Env) (T : Nat) :
-    let s := CL.run n nb env T (CL.init latency reqs m0)
-    let spec := seqSpec nb (s.log.map (·.2)) m0
+    let s := CL.run n env T (CL.init latency reqs m0)
+    let spec := seqSpec (s.log.map (·.2)) m0
     s.store = spec.2 ∧
     (∀ i, (s.ports i).delivered ++ (s.ports i).respQ.contents = respsOf i s.log spec.1) ∧
     (∀ i, procs i s.log ++ (s.ports i).reqQ.contents ++ (s.ports i).pending = reqs i) ∧
     (∀ e ∈ s.log, e.1 < n) := by
-  have h := CL.run_inv n nb latency reqs m0 env T
+  have h := CL.run_inv n latency reqs m0 env T
   exact ⟨h.main.1, h.main.2.1, h.main.2.2, h.bound⟩
 
 /-- the stream `MagicMemoryRTL` (with `RandomStall` and `InelasticDelayPipe(extra_latency+1)`) -/
-theorem rtl_timing_independent (n nb extra : Nat) (reqs : Nat → List Req) (m0 : Store)
+theorem rtl_timing_independent (n extra : Nat) (reqs : Nat → List Req) (m0 : Store)
     (env : Nat → Nat → RTL.Env) (T : Nat) :
-    let s := RTL.run n nb env T (RTL.init extra reqs m0)
-    let spec := seqSpec nb (s.log.map (·.2)) m0
+    let s := RTL.run n env T (RTL.init extra reqs m0)
+    let spec := seqSpec (s.log.map (·.2)) m0
     s.store = spec.2 ∧
     (∀ i, (s.ports i).delivered ++ (s.ports i).pipe.slots.contents = respsOf i s.log spec.1) ∧
     (∀ i, procs i s.log ++ (s.ports i).pending = reqs i) ∧
     (∀ e ∈ s.log, e.1 < n) := by
-  have h := (RTL.run_inv n nb extra reqs m0 env T).1
+  have h := (RTL.run_inv n extra reqs m0 env T).1
   refine ⟨h.main.1, h.main.2.1, ?_, h.bound⟩
   intro i; have := h.main.2.2 i; simpa [RTL.Port.view] using this
 
@@ -209,109 +210,109 @@ theorem rtl_timing_independent (n nb extra : Nat) (reqs : Nat → List Req) (m0 
 sequential specification's responses for its port; the processed requests of a port are a prefix
 of its request stream; the (type, opaque) sequence received is a prefix of the (type, opaque)
 sequence requested; and once nothing is in flight everything was processed and answered. -/
-theorem cl_responses_in_order (n nb latency : Nat) (reqs : Nat → List Req) (m0 : Store)
+theorem cl_responses_in_order (n latency : Nat) (reqs : Nat → List Req) (m0 : Store)
     (env : Nat → Nat → CL.Env) (T : Nat) (i : Nat) :
-    let s := CL.run n nb env T (CL.init latency reqs m0)
-    (s.ports i).delivered <+: respsOf i s.log (seqSpec nb (s.log.map (·.2)) m0).1 ∧
+    let s := CL.run n env T (CL.init latency reqs m0)
+    (s.ports i).delivered <+: respsOf i s.log (seqSpec (s.log.map (·.2)) m0).1 ∧
     procs i s.log <+: reqs i ∧
     (s.ports i).delivered.map tyOpq <+: (reqs i).map reqTyOpq ∧
     ((s.ports i).pending = [] → (s.ports i).reqQ.contents = [] → (s.ports i).respQ.contents = [] →
       procs i s.log = reqs i ∧
-      (s.ports i).delivered = respsOf i s.log (seqSpec nb (s.log.map (·.2)) m0).1) := by
-  have h := CL.run_inv n nb latency reqs m0 env T
+      (s.ports i).delivered = respsOf i s.log (seqSpec (s.log.map (·.2)) m0).1) := by
+  have h := CL.run_inv n latency reqs m0 env T
   exact ⟨h.delivered_prefix i, h.procs_prefix i, h.echo i, h.drained i⟩
 
-theorem rtl_responses_in_order (n nb extra : Nat) (reqs : Nat → List Req) (m0 : Store)
+theorem rtl_responses_in_order (n extra : Nat) (reqs : Nat → List Req) (m0 : Store)
     (env : Nat → Nat → RTL.Env) (T : Nat) (i : Nat) :
-    let s := RTL.run n nb env T (RTL.init extra reqs m0)
-    (s.ports i).delivered <+: respsOf i s.log (seqSpec nb (s.log.map (·.2)) m0).1 ∧
+    let s := RTL.run n env T (RTL.init extra reqs m0)
+    (s.ports i).delivered <+: respsOf i s.log (seqSpec (s.log.map (·.2)) m0).1 ∧
     procs i s.log <+: reqs i ∧
     (s.ports i).delivered.map tyOpq <+: (reqs i).map reqTyOpq ∧
     ((s.ports i).pending = [] → (s.ports i).pipe.slots.contents = [] →
       procs i s.log = reqs i ∧
-      (s.ports i).delivered = respsOf i s.log (seqSpec nb (s.log.map (·.2)) m0).1) := by
-  have h := (RTL.run_inv n nb extra reqs m0 env T).1
+      (s.ports i).delivered = respsOf i s.log (seqSpec (s.log.map (·.2)) m0).1) := by
+  have h := (RTL.run_inv n extra reqs m0 env T).1
   exact ⟨h.delivered_prefix i, h.procs_prefix i, h.echo i, fun h1 h3 => h.drained i h1 rfl h3⟩
 
 /-- with one port the contents do not depend on timing at all: under *any* latency / stall / source
 / sink timing the responses received are a prefix of the sequential specification applied to the
 request list itself, and once every request was processed the image is the specification's. Two
 runs of the same stream under different timing therefore agree on every response they both got. -/
-theorem cl_single_port (nb latency : Nat) (reqs : Nat → List Req) (m0 : Store)
+theorem cl_single_port (latency : Nat) (reqs : Nat → List Req) (m0 : Store)
     (env : Nat → Nat → CL.Env) (T : Nat) :
-    let s := CL.run 1 nb env T (CL.init latency reqs m0)
-    (s.ports 0).delivered <+: (seqSpec nb (reqs 0) m0).1 ∧
-    ((s.ports 0).pending = [] → (s.ports 0).reqQ.contents = [] → s.store = (seqSpec nb (reqs 0) m0).2) :=
-  (CL.run_inv 1 nb latency reqs m0 env T).single_port
+    let s := CL.run 1 env T (CL.init latency reqs m0)
+    (s.ports 0).delivered <+: (seqSpec (reqs 0) m0).1 ∧
+    ((s.ports 0).pending = [] → (s.ports 0).reqQ.contents = [] → s.store = (seqSpec (reqs 0) m0).2) :=
+  (CL.run_inv 1 latency reqs m0 env T).single_port
 
-theorem rtl_single_port (nb extra : Nat) (reqs : Nat → List Req) (m0 : Store)
+theorem rtl_single_port (extra : Nat) (reqs : Nat → List Req) (m0 : Store)
     (env : Nat → Nat → RTL.Env) (T : Nat) :
-    let s := RTL.run 1 nb env T (RTL.init extra reqs m0)
-    (s.ports 0).delivered <+: (seqSpec nb (reqs 0) m0).1 ∧
-    ((s.ports 0).pending = [] → s.store = (seqSpec nb (reqs 0) m0).2) := by
-  have h := (RTL.run_inv 1 nb extra reqs m0 env T).1.single_port
+    let s := RTL.run 1 env T (RTL.init extra reqs m0)
+    (s.ports 0).delivered <+: (seqSpec (reqs 0) m0).1 ∧
+    ((s.ports 0).pending = [] → s.store = (seqSpec (reqs 0) m0).2) := by
+  have h := (RTL.run_inv 1 extra reqs m0 env T).1.single_port
   exact ⟨h.1, fun h1 => h.2 h1 rfl⟩
 
 /-- several ports working on pairwise disjoint address regions: under any timing and any
 interleaving each port receives a prefix of the sequential specification applied to its own request
 list, and once all its requests are processed its region of the image is that specification's -/
-theorem cl_disjoint_ports (n nb latency : Nat) (reqs : Nat → List Req) (m0 : Store)
+theorem cl_disjoint_ports (n latency : Nat) (reqs : Nat → List Req) (m0 : Store)
     (env : Nat → Nat → CL.Env) (T : Nat) (region : Nat → Nat → Prop)
     (hdisj : ∀ i j b, i ≠ j → region i b → ¬ region j b)
-    (hreg : ∀ i, ∀ r ∈ reqs i, ∀ b, footprint nb r b → region i b) (i : Nat) :
-    let s := CL.run n nb env T (CL.init latency reqs m0)
-    (s.ports i).delivered <+: (seqSpec nb (reqs i) m0).1 ∧
+    (hreg : ∀ i, ∀ r ∈ reqs i, ∀ b, footprint r b → region i b) (i : Nat) :
+    let s := CL.run n env T (CL.init latency reqs m0)
+    (s.ports i).delivered <+: (seqSpec (reqs i) m0).1 ∧
     ((s.ports i).pending = [] → (s.ports i).reqQ.contents = [] →
-      AgreeOn (region i) s.store (seqSpec nb (reqs i) m0).2) :=
-  (CL.run_inv n nb latency reqs m0 env T).disjoint region hdisj hreg i
+      AgreeOn (region i) s.store (seqSpec (reqs i) m0).2) :=
+  (CL.run_inv n latency reqs m0 env T).disjoint region hdisj hreg i
 
-theorem rtl_disjoint_ports (n nb extra : Nat) (reqs : Nat → List Req) (m0 : Store)
+theorem rtl_disjoint_ports (n extra : Nat) (reqs : Nat → List Req) (m0 : Store)
     (env : Nat → Nat → RTL.Env) (T : Nat) (region : Nat → Nat → Prop)
     (hdisj : ∀ i j b, i ≠ j → region i b → ¬ region j b)
-    (hreg : ∀ i, ∀ r ∈ reqs i, ∀ b, footprint nb r b → region i b) (i : Nat) :
-    let s := RTL.run n nb env T (RTL.init extra reqs m0)
-    (s.ports i).delivered <+: (seqSpec nb (reqs i) m0).1 ∧
-    ((s.ports i).pending = [] → AgreeOn (region i) s.store (seqSpec nb (reqs i) m0).2) := by
-  have h := (RTL.run_inv n nb extra reqs m0 env T).1.disjoint region hdisj hreg i
+    (hreg : ∀ i, ∀ r ∈ reqs i, ∀ b, footprint r b → region i b) (i : Nat) :
+    let s := RTL.run n env T (RTL.init extra reqs m0)
+    (s.ports i).delivered <+: (seqSpec (reqs i) m0).1 ∧
+    ((s.ports i).pending = [] → AgreeOn (region i) s.store (seqSpec (reqs i) m0).2) := by
+  have h := (RTL.run_inv n extra reqs m0 env T).1.disjoint region hdisj hreg i
   exact ⟨h.1, fun h1 => h.2 h1 rfl⟩
 
 /-- timing changes only *when*, never *what*: two runs of `MagicMemoryCL` (different latency,
 environment, length) that processed the requests in the same order have the same image and the same
 per-port response streams -/
-theorem cl_same_order_same_contents (n nb l1 l2 : Nat) (reqs : Nat → List Req) (m0 : Store)
+theorem cl_same_order_same_contents (n l1 l2 : Nat) (reqs : Nat → List Req) (m0 : Store)
     (e1 e2 : Nat → Nat → CL.Env) (T1 T2 : Nat)
-    (h : (CL.run n nb e1 T1 (CL.init l1 reqs m0)).log = (CL.run n nb e2 T2 (CL.init l2 reqs m0)).log) :
-    let s1 := CL.run n nb e1 T1 (CL.init l1 reqs m0)
-    let s2 := CL.run n nb e2 T2 (CL.init l2 reqs m0)
+    (h : (CL.run n e1 T1 (CL.init l1 reqs m0)).log = (CL.run n e2 T2 (CL.init l2 reqs m0)).log) :
+    let s1 := CL.run n e1 T1 (CL.init l1 reqs m0)
+    let s2 := CL.run n e2 T2 (CL.init l2 reqs m0)
     s1.store = s2.store ∧
     ∀ i, (s1.ports i).delivered ++ (s1.ports i).respQ.contents =
          (s2.ports i).delivered ++ (s2.ports i).respQ.contents := by
-  have h1 := cl_timing_independent n nb l1 reqs m0 e1 T1
-  have h2 := cl_timing_independent n nb l2 reqs m0 e2 T2
+  have h1 := cl_timing_independent n l1 reqs m0 e1 T1
+  have h2 := cl_timing_independent n l2 reqs m0 e2 T2
   simp only [] at h1 h2 ⊢
   refine ⟨by rw [h1.1, h2.1, h], fun i => ?_⟩
   rw [h1.2.1 i, h2.2.1 i, h]
 
 /-! ## non-vacuity: concrete runs in which requests are processed, stalled and delivered -/
 
-private def wr (o a l d : Nat) : Req := ⟨.write, o, a, l, d⟩
-private def rd (o a l : Nat) : Req := ⟨.read, o, a, l, 0⟩
+private def wr (o a l d : Nat) : Req := ⟨.write, o, a, l, d, 4⟩
+private def rd (o a l : Nat) : Req := ⟨.read, o, a, l, 0, 4⟩
 private def exReqs : Nat → List Req
   | 0 => [wr 1 16 0 0xdeadbeef, rd 2 17 2]
-  | 1 => [⟨.amo .add, 3, 16, 0, 1⟩, rd 4 16 0]
+  | 1 => [⟨.amo .add, 3, 16, 0, 1, 4⟩, rd 4 16 0]
   | _ => []
 /-- port 1 is stalled in cycles 0..2, the sinks are not ready in cycle 4 -/
 private def exEnv (t i : Nat) : CL.Env := ⟨true, i == 1 && t < 3, t != 4⟩
 
 example :
-    let s := CL.run 2 4 exEnv 12 (CL.init 3 exReqs (fun _ => 0))
+    let s := CL.run 2 exEnv 12 (CL.init 3 exReqs (fun _ => 0))
     s.log.map (·.1) = [0, 0, 1, 1] ∧
     (s.ports 0).delivered = [⟨1, 1, 0, 0, 0⟩, ⟨0, 2, 0, 2, 0xadbe⟩] ∧
     (s.ports 1).delivered = [⟨3, 3, 0, 0, 0xdeadbeef⟩, ⟨0, 4, 0, 0, 0xdeadbef0⟩] ∧
     readLE s.store 16 4 = 0xdeadbef0 := by decide +kernel
 
 example :
-    let s := RTL.run 2 4 (fun t i => ⟨true, i == 1 && t < 3, t != 4⟩) 12 (RTL.init 1 exReqs (fun _ => 0))
+    let s := RTL.run 2 (fun t i => ⟨true, i == 1 && t < 3, t != 4⟩) 12 (RTL.init 1 exReqs (fun _ => 0))
     s.log.map (·.1) = [0, 0, 1, 1] ∧
     (s.ports 1).delivered = [⟨3, 3, 0, 0, 0xdeadbeef⟩, ⟨0, 4, 0, 0, 0xdeadbef0⟩] := by decide +kernel
 
